@@ -22,7 +22,6 @@ import (
 	"context"
 	"fmt"
 	"regexp"
-	"strings"
 
 	"github.com/foxcpp/maddy/framework/config"
 	"github.com/foxcpp/maddy/framework/module"
@@ -65,12 +64,9 @@ func (r *Regexp) Init(cfg *config.Map) error {
 	}
 
 	if fullMatch {
-		if !strings.HasPrefix(regex, "^") {
-			regex = "^" + regex
-		}
-		if !strings.HasSuffix(regex, "$") {
-			regex = regex + "$"
-		}
+		// The expression is grouped: anchors added to "a|b" as is would
+		// apply to the first and to the last alternative only.
+		regex = "^(?:" + regex + ")$"
 	}
 
 	if caseInsensitive {
@@ -97,6 +93,12 @@ func (r *Regexp) LookupMulti(_ context.Context, key string) ([]string, error) {
 	matches := r.re.FindStringSubmatchIndex(key)
 	if matches == nil {
 		return []string{}, nil
+	}
+
+	if len(r.replacements) == 0 {
+		// No replacement: the table acts as a match check and returns the
+		// original string (e.g. for destination_in).
+		return []string{key}, nil
 	}
 
 	result := []string{}
